@@ -35,7 +35,7 @@ import threading
 from . import common
 
 TRACE_SET = ("chmod,fchmod,fchmodat,openat,open,creat,unlink,unlinkat,rename,renameat,renameat2,mkdir,mkdirat,"
-             "rmdir,link,linkat,symlink,symlinkat,truncate,ftruncate,execve")
+             "rmdir,link,linkat,symlink,symlinkat,truncate,ftruncate,execve,clone,clone3,fork,vfork")
 NONE_NEEDLE = "@none@"
 TS_LINE = re.compile(rb"^(#|//) Generated at\s*:\s.* UTC\r?$", re.M)
 # generated Python embeds base85(gzip(pickle)): base85 chars 0-4 are the gzip magic/method/flags, chars 5-9 the gzip MTIME
@@ -50,10 +50,18 @@ DSDL = {
 }
 
 PROG = """#!/bin/sh
-# in-place "formatter": fails on files whose path contains $1, otherwise appends one line
-case "$2" in *"$1"*) exit 3;; esac
-printf '// pp\\n' >> "$2"
+# "formatter" $1=needle $2=append|replace|chmod $3=file: fails on files whose path contains the needle, otherwise
+# appends one line -- in place, or by writing a temp file (mode 0600) and renaming it over the file (new inode), or in
+# place followed by chmod 0640
+case "$3" in *"$1"*) exit 3;; esac
+case "$2" in
+  append) printf '// pp\\n' >> "$3" ;;
+  replace) t="$3.tmp$$"; ( umask 077; cat "$3" > "$t" ) && printf '// pp\\n' >> "$t" && mv -f "$t" "$3" ;;
+  chmod) printf '// pp\\n' >> "$3" && chmod 0640 "$3" ;;
+  *) exit 4 ;;
+esac
 """
+PROG_MODE = {"append": None, "replace": 0o600, "chmod": 0o640}
 
 FOREIGN = ["README.txt", "tiny/NOTES.md", "nunavut/support/extra.h", "other/deep/x.bin", "tiny/sub/zz.h", "tiny/__init__.pyi"]
 MODES = [0o644, 0o444, 0o600, 0o400, 0o000, 0o755, 0o640, 0o200, 0o555, 0o666]
@@ -137,20 +145,31 @@ def _rel(path, cwd, root):
 def tree_events(calls, cwd, root, mainpid=None):
     """Reduce parsed syscalls to events on the tree below `root`:
     ('chmod', rel, mode) ('mkdir', rel, ok) ('open', rel, ok/denied) ('exec', rel) ('other', name, rel); main pid only,
-    except that an execve of another pid naming a path below root becomes ('exec', rel)."""
+    except that an execve of another pid naming a path below root becomes ('exec', rel) and a successful rename onto /
+    chmod of a tree path by another pid becomes ('childmode', rel): the program step replaced the inode or changed the mode."""
     if mainpid is None and calls:
         mainpid = calls[0][0]
     ev, fds, execd = [], {}, set()
+    # ancestry first: with vfork the parent's return is logged after the child's execve
+    parent = {int(ret): pid for pid, name, _, _, ret, _ in calls if name in ("clone", "clone3", "fork", "vfork") and ret.isdigit()}
     for pid, name, strs, args, ret, errno in calls:
+        if name in ("clone", "clone3", "fork", "vfork"):
+            continue
         rels = [r for r in (_rel(s, cwd, root) for s in strs) if r is not None] if strs else []
         if name == "execve":
             if pid != mainpid and ret == "0" and pid not in execd:
                 hit = [r for r in (_rel(s, cwd, root) for s in strs[1:]) if r is not None and r != "."]
                 if hit:
                     execd.add(pid)
-                    ev.append(("exec", hit[-1]))
+                    # a process started by nnvg itself begins a program step; what that program spawns belongs to it
+                    ev.append(("exec", hit[-1], parent.get(pid) == mainpid))
             continue
         if pid != mainpid:
+            # the external program's own doing: a rename onto / chmod of a tree path changes inode or mode
+            if ret == "0" and rels and name in ("rename", "renameat", "renameat2"):
+                ev.append(("childmode", rels[-1]))
+            elif ret == "0" and rels and name in ("chmod", "fchmodat"):
+                ev.append(("childmode", rels[0]))
             continue
         if name in ("open", "openat", "creat"):
             if not strs:
@@ -222,7 +241,14 @@ def canon_ops(events):
         if e[0] == "chmod":
             ops.append(f"chmod@{e[1]}@{e[2]}")
         elif e[0] == "exec":
-            ops.append(f"exec@{e[1]}")
+            # one program step = the script and the tools it spawns (cat, mv, chmod), all naming the same file
+            if e[2] or not (ops and ops[-1] in (f"exec@{e[1]}", f"exec@{e[1]}@mode")):
+                ops.append(f"exec@{e[1]}")
+        elif e[0] == "childmode":
+            if ops and ops[-1] in (f"exec@{e[1]}", f"exec@{e[1]}@mode"):
+                ops[-1] = f"exec@{e[1]}@mode"
+            else:
+                ops.append(f"childmode?@{e[1]}")
         else:
             ops.append(f"{e[1]}?@{e[2]}")
     flush_raw()
@@ -231,7 +257,13 @@ def canon_ops(events):
 
 def model_ops(mops):
     """Model operation list; the post-processor index of `exec` is not observable in a trace."""
-    return [] if mops == "-" else [re.sub(r"^(exec@.*)@\d+$", r"\1", o) for o in mops.split(",")]
+    out = []
+    for o in ([] if mops == "-" else mops.split(",")):
+        t = o.split("@")
+        if t[0] == "exec":
+            o = f"exec@{t[1]}" + ("@mode" if len(t) == 4 else "")  # exec@p@i[@mode-left-by-the-program]
+        out.append(o)
+    return out
 
 
 def strace_cmd(umask, trace_file, argv):
@@ -278,9 +310,14 @@ def nnvg_args(c, outdir, nsdir, prog):
     if c.get("maxempty") is not None:
         a += ["--pp-max-emptylines", str(c["maxempty"])]
     if c.get("prog"):
-        a += ["--pp-run-program", str(prog), "--pp-run-program-arg", c["prog"]]
+        a += ["--pp-run-program", str(prog), "--pp-run-program-arg", c["prog"], "--pp-run-program-arg", c.get("prog_kind") or "append"]
     a.append(str(nsdir / "tiny"))
     return a
+
+
+def plain_cfg(c):
+    """The invocation without the external program and without --no-overwrite (complete output list, pre-program contents)."""
+    return dict(c, prog=None, prog_kind=None, no_overwrite=False)
 
 
 def file_mode_int(c):
@@ -357,9 +394,7 @@ class Cli:
 
     def model_run(self, c, umask):
         """The `Run` of the model for this invocation, from reference runs into empty directories."""
-        plain = dict(c)
-        plain["prog"] = None
-        a = self.reference(plain, umask)
+        a = self.reference(plain_cfg(c), umask)
         if a["status"] != "ok":
             return None, a
         writes = [(p, cid(a["files"][p][1])) for p in a["order"]]
@@ -374,7 +409,8 @@ class Cli:
                     break  # not reached in the reference: the run stopped before
                 post = cid(b["files"][p][1])
                 failed_here = b["status"] == "pp" and post == pre
-                table.append((pre, "!" if failed_here else post))
+                left = PROG_MODE[c.get("prog_kind") or "append"]
+                table.append((pre, "!" if failed_here else post + ("" if left is None else f"~{left}")))
                 if failed_here:
                     break
             if len({x for x, _ in table}) != len(table):
@@ -422,7 +458,10 @@ def gen_cfg(rng, lang):
     c = {"lang": lang, "file_mode": rng.choice(FILE_MODES), "no_overwrite": rng.random() < 0.3,
          "omit": rng.random() < 0.2, "support": rng.choice([None, None, None, "never", "always", "only", "as-needed"]),
          "trim": rng.random() < 0.3, "maxempty": rng.choice([None, None, None, 0, 1, 2]),
-         "prog": rng.choice([None] * 6 + [NONE_NEEDLE] * 3 + [rng.choice(["Blob", "Query", "Point", "support"])] * 2)}
+         "prog": rng.choice([None] * 5 + [NONE_NEEDLE] * 4 + [rng.choice(["Blob", "Query", "Point", "support"])] * 2),
+         "prog_kind": rng.choice(["append", "replace", "replace", "chmod"])}
+    if c["prog"] is None:
+        c["prog_kind"] = None
     if c["omit"] and c["support"] == "always":
         c["support"] = None
     return c
@@ -492,6 +531,8 @@ def check_cli_step(ctx, hid, h, i, st, ref_plain, ref_same):
         for e in st["events"]:
             if e[0] == "chmod" and e[2] >= 0:
                 modes[e[1]] = e[2]
+            elif e[0] == "childmode":
+                modes.pop(e[1], None)  # the program left its own inode/mode: not tracked from the trace
             elif e[0] == "open":
                 p = e[1]
                 if p in modes and not modes[p] & 0o200:
@@ -526,15 +567,15 @@ def do_cli(ctx, drv, histories, pool):
     need = {}
     for h in histories:
         for c in h["steps"]:
-            for v in (dict(c, prog=None, no_overwrite=False), dict(c, no_overwrite=False)):
+            for v in (plain_cfg(c), dict(c, no_overwrite=False)):
                 need[(cfg_key(v), h["umask"])] = (v, h["umask"])
     list(pool.map(lambda cu: cli.reference(*cu), need.values()))
     ctx.count("cli_reference_runs", len(need))
     for h in histories:
-        first = cli.reference(dict(h["steps"][0], prog=None, no_overwrite=False), h["umask"])
+        first = cli.reference(plain_cfg(h["steps"][0]), h["umask"])
         others = []
         for c in h["steps"][1:]:
-            others += cli.reference(dict(c, prog=None, no_overwrite=False), h["umask"])["order"]
+            others += cli.reference(plain_cfg(c), h["umask"])["order"]
         add_stale(h, first["order"] + [p for p in others if p not in first["order"]])
     # 2. the histories on the real CLI (parallel)
     results = list(pool.map(cli.run_history, histories))
@@ -565,7 +606,7 @@ def do_cli(ctx, drv, histories, pool):
             ctx.extra.setdefault("corpus_cli_statuses", {})[h["name"]] = [st["status"] for st in res["steps"]]
         for i, st in enumerate(res["steps"]):
             c = st["cfg"]
-            ref_plain = cli.reference(dict(c, prog=None, no_overwrite=False), h["umask"])
+            ref_plain = cli.reference(plain_cfg(c), h["umask"])
             ref_same = cli.reference(dict(c, no_overwrite=False), h["umask"])
             ctx.count("status=" + st["status"].split(":")[0])
             ctx.count("lang=" + c["lang"])
@@ -573,7 +614,7 @@ def do_cli(ctx, drv, histories, pool):
                 if c.get(flag):
                     ctx.count("flag=" + flag)
             if c.get("prog"):
-                ctx.count("flag=pp-run-program" + ("" if c["prog"] == NONE_NEEDLE else "(failing)"))
+                ctx.count("flag=pp-run-program:" + (c.get("prog_kind") or "append") + ("" if c["prog"] == NONE_NEEDLE else "(failing)"))
             if any(e[0] == "chmod" and i2 + 2 < len(st["events"]) and st["events"][i2 + 1][0] == "mkdir" for i2, e in enumerate(st["events"])):
                 ctx.count("steps_overwriting_existing_files")
             ro = [p for p, (m, _) in st["before"][0].items() if not m & 0o200 and p in ref_plain["files"]]
@@ -635,7 +676,7 @@ for sc in spec["scenarios"]:
             if p[0] == "M":
                 pps.append(npp.SetFileMode(p[1]))
             elif p[0] == "E":
-                pps.append(npp.ExternalProgramEditInPlace([spec["prog"], p[1]]))
+                pps.append(npp.ExternalProgramEditInPlace([spec["prog"], p[1], p[2] if len(p) > 2 else "append"]))
             elif p[0] == "T":
                 pps.append(npp.TrimTrailingWhitespace())
         gen = object.__new__(DSDLCodeGenerator)
@@ -677,7 +718,9 @@ def lib_scenarios_exhaustive(quick):
     """Single interesting file `f.h` (+ a second new file in a new directory), three-step histories cfg, cfg', cfg."""
     inits = [None, 0o644, 0o444, 0o000, 0o200, 0o555] if not quick else [None, 0o644, 0o444, 0o000]
     ppss = [[], [["M", 0o444]], [["E", NONE_NEEDLE]], [["E", NONE_NEEDLE], ["M", 0o600]], [["M", 0o400], ["E", NONE_NEEDLE]],
-            [["E", "f.h"]], [["E", "f.h"], ["M", 0o444]], [["M", 0o100640], ["M", 0o4]]]
+            [["E", "f.h"]], [["E", "f.h"], ["M", 0o444]], [["M", 0o100640], ["M", 0o4]],
+            [["E", NONE_NEEDLE, "replace"]], [["E", NONE_NEEDLE, "replace"], ["M", 0o444]], [["M", 0o444], ["E", NONE_NEEDLE, "replace"]],
+            [["M", 0o400], ["E", NONE_NEEDLE, "chmod"]], [["E", NONE_NEEDLE, "chmod"], ["E", NONE_NEEDLE, "replace"], ["M", 0o644]]]
     kinds = [("R", None), ("X", None), ("C", 0o644), ("C", 0o555)]
     out = []
     for init in inits:
@@ -707,7 +750,8 @@ def lib_scenarios_random(rng, n):
             pps = []
             for _ in range(rng.choice([0, 1, 1, 2, 2, 3])):
                 pps.append(rng.choice([["M", rng.choice([0o444, 0o644, 0o600, 0o400, 0, 0o200, 0o755, 0o100664])],
-                                       ["E", rng.choice([NONE_NEEDLE, NONE_NEEDLE, NONE_NEEDLE, "g.h", "k.h", "f.h"])]]))
+                                       ["E", rng.choice([NONE_NEEDLE, NONE_NEEDLE, NONE_NEEDLE, "g.h", "k.h", "f.h"]),
+                                        rng.choice(["append", "append", "replace", "chmod"])]]))
             if rng.random() < 0.25:
                 pps.insert(0, ["T"])
             ws = []
@@ -751,7 +795,8 @@ def lib_model_request(sc, umask):
                 ent = []
                 for w in run["writes"]:
                     for suf in ("", "p", "pp"):
-                        ent.append(f"{w['tag']}{suf}>" + ("!" if p[1] in w["path"] else f"{w['tag']}{suf}p"))
+                        left = PROG_MODE[p[2] if len(p) > 2 else "append"]
+                        ent.append(f"{w['tag']}{suf}>" + ("!" if p[1] in w["path"] else f"{w['tag']}{suf}p" + ("" if left is None else f"~{left}")))
                 pps.append("E" + "+".join(ent))
         runs.append(f"{1 if run['allow'] else 0}:{','.join(pps) or '-'}:{','.join(ws)}")
     return f"hist 1,{0o666 & ~umask} {'|'.join(init) or '-'} {';'.join(runs)}", ids
@@ -869,14 +914,14 @@ def run(ctx: common.Ctx):
     ctx.rule = ("cli: histories of 3-6 real nnvg invocations under strace (language, --file-mode, --no-overwrite, --omit-serialization-support, "
                 "--generate-support, line post-processors, --pp-run-program incl. failing) into a directory pre-populated with foreign files and "
                 "stale files of random modes at output paths; lib: _generate_code/_copy_header in-process under strace, exhaustive "
-                "(initial state of the file x allow x 8 post-processor lists x render/failing render/copy x line-pp) as 3-step histories + random "
+                "(initial state of the file x allow x 13 post-processor lists x render/failing render/copy x line-pp) as 3-step histories + random "
                 "multi-file histories; compared per step: status class, operation sequence on the tree, resulting (path, mode, sha256); "
                 "distinct by the full history description")
     ctx.assumptions = [
         "content a run renders for a file is a function of the invocation (C07/C10); the 'Generated at' line and the gzip MTIME inside generated Python's pickled model are normalised before hashing",
         "POSIX owner semantics of chmod/open as modelled; regular files only (no symlinks, no directory at an output path, no file at a directory position)",
         "the harness runs as root: a denied open is unobservable from contents, hence the operation traces (strace) and the non-root branch in the model",
-        "external programs depend on the file content only, edit in place and leave the mode alone",
+        "external programs depend on the file content only (they may edit in place, replace the file by a new inode, or chmod it)",
         "paths of one run are distinct (C11) for the 'fails iff an output pre-exists' direction",
     ]
     ctx.scratch  # create before the threads start
